@@ -44,7 +44,8 @@ Judge(c, p, o, sv) ==
                   ELSE IF o.k = "DomainError" THEN <<"V:C01.raised", "V:C02.raised_on_domain">>
                   ELSE <<>>)
               ELSE <<>>
-      c02  == IF sup /\ ref.k = "undef" /\ o.k \in NumKinds THEN <<"V:C02.number_outside_domain">>
+      c02  == IF sup /\ ref.k \in {"q","nx","oor"} /\ o.k = "bad" THEN <<"V:C02.not_a_finite_real_" \o o.t>>
+              ELSE IF sup /\ ref.k = "undef" /\ o.k \in NumKinds THEN <<"V:C02.number_outside_domain">>
               ELSE IF sup /\ ref.k \in {"nx","oor"} /\ o.k = "DomainError" THEN <<"V:C02.raised_on_domain">>
               ELSE <<>>
       fl   == IF sup /\ ref.k \in {"nx","oor","unk"} THEN <<"fl">> ELSE <<>>
